@@ -239,12 +239,48 @@ def _lock_file(ctx):
         ctx.guarded(5.0, _one_text, ctx, t, "lock_file", envs)
 
 
+def _tree_as_text(t):
+    if t[0] == "m":
+        return t[1]
+    if t[0] in ("and", "or"):
+        a, b = _tree_as_text(t[1]), _tree_as_text(t[2])
+        if a is None or b is None:
+            return None
+        return f"({a}) {t[0]} ({b})"
+    return None
+
+
+def _small_scope(ctx):
+    """The small-scope strata of the marker checks, written out as single texts: several atoms on
+    one variable with explicit parentheses (parse-time merging of groups, CNF/DNF shapes)."""
+    from ._marker_common import small_scope_trees
+
+    ctx.stratum = "main"
+    MM.clear_caches()
+    step = ctx.nshards * (2 if ctx.tier == "thorough" else 12)
+    off = ctx.shard if ctx.tier == "thorough" else ctx.shard + (ctx.seed % 12) * ctx.nshards
+    n = 0
+    for i, t in enumerate(small_scope_trees(ctx)):
+        if i % step != off % step:
+            continue
+        text = _tree_as_text(t)
+        if text is None:
+            continue
+        n += 1
+        ctx.cases += 1
+        ctx.current_case = {"kind": "text", "text": text, "stratum": "main", "context": "metadata"}
+        ctx.guarded(5.0 if ctx.tier == "quick" else 20.0, _one_text, ctx, text)
+    ctx.extra["small_scope_texts"] = n
+
+
 def run(ctx):
     quick = ctx.tier == "quick"
     _atom_table(ctx)
+    _small_scope(ctx)
     _lock_file(ctx)
     _stratum(ctx, "main", MW.Cfg(), 700 if quick else 10000)
     _stratum(ctx, "prerelease", MW.Cfg(), 100 if quick else 1500)
+    _stratum(ctx, "prelit", MW.Cfg(prelit=True, extras=False), 150 if quick else 2000)
     _stratum(ctx, "pyin", MW.Cfg(pyin=True), 100 if quick else 1500)
     _stratum(ctx, "revin", MW.Cfg(rev_in=True, few_vars=["sys_platform", "os_name"]), 100 if quick else 1500)
     ctx.stratum = "main"
